@@ -62,10 +62,10 @@ func (m ClientState) CheckHeaderAndUpdateState(
 	if pruneError != nil {
 		return nil, nil, pruneError
 	}
-	// if pruneHeight is set, delete consensus state and metadata
+	// if pruneHeight is set, delete the expired consensus state; the recent-signer record of that
+	// height is part of the sealing history and is pruned by update() once it leaves the window
 	if pruneHeight != nil {
 		deleteConsensusState(store, pruneHeight)
-		DeleteSigner(store, clienttypes.NewHeight(pruneHeight.GetRevisionNumber(), pruneHeight.GetRevisionHeight()))
 	}
 
 	newClientState, consensusState, err := update(cdc, store, &m, bscHeader)
